@@ -9,6 +9,7 @@ import GFO.Model.Kernels
 import GFO.Model.Init
 import GFO.Model.Tracker
 import GFO.Model.Smbo
+import GFO.Model.Local
 open GFO GFO.Proto
 
 /-- one recorded backend interaction of the real run -/
@@ -20,6 +21,7 @@ deriving Inhabited
 /-- scripted backend: replays the positions the real optimizer emitted, insisting on the same call kinds -/
 structure Script where
   queue : List Item := []
+  loc : Option (LocalCfg × Local) := none       -- when present: the COMPLETE backend model (GFO.Model.Local) is driven instead
 deriving Inhabited
 
 def Script.raisesNow (s : Script) : Bool := match s.queue with
@@ -28,20 +30,41 @@ def Script.raisesNow (s : Script) : Bool := match s.queue with
 
 def backendRaised : Err := .other "backend-raised"
 
-def scripted : Backend Script where
+def scriptedOnly : Backend Script where
   initPos s := match s.queue with
     | .raise :: _ => .error backendRaised
-    | .pos true p :: q => .ok (p, { queue := q })
+    | .pos true p :: q => .ok (p, { s with queue := q })
     | .pos false _ :: _ => .error (.other "model-called-init_pos-real-called-iterate")
     | [] => .error .needMore
   iterate s := match s.queue with
     | .raise :: _ => .error backendRaised
-    | .pos false p :: q => .ok (p, { queue := q })
+    | .pos false p :: q => .ok (p, { s with queue := q })
     | .pos true _ :: _ => .error (.other "model-called-iterate-real-called-init_pos")
     | [] => .error .needMore
   evalInit s _ := if s.raisesNow then .error backendRaised else .ok s
   evaluate s _ := if s.raisesNow then .error backendRaised else .ok s
   finishInit s := if s.raisesNow then .error backendRaised else .ok s
+
+def liftLocal {α : Type} (s : Script) (cfg : LocalCfg) (r : Except Err (α × Local)) : Except Err (α × Script) :=
+  r.map (fun x => (x.1, { s with loc := some (cfg, x.2) }))
+
+/-- the backend the driver model is run with: the complete model when one is loaded, the scripted replay otherwise -/
+def scripted : Backend Script where
+  initPos s := match s.loc with
+    | some (cfg, l) => liftLocal s cfg ((localBackend cfg).initPos l)
+    | none => scriptedOnly.initPos s
+  iterate s := match s.loc with
+    | some (cfg, l) => liftLocal s cfg ((localBackend cfg).iterate l)
+    | none => scriptedOnly.iterate s
+  evalInit s x := match s.loc with
+    | some (cfg, l) => ((localBackend cfg).evalInit l x).map (fun l' => { s with loc := some (cfg, l') })
+    | none => scriptedOnly.evalInit s x
+  evaluate s x := match s.loc with
+    | some (cfg, l) => ((localBackend cfg).evaluate l x).map (fun l' => { s with loc := some (cfg, l') })
+    | none => scriptedOnly.evaluate s x
+  finishInit s := match s.loc with
+    | some (cfg, l) => ((localBackend cfg).finishInit l).map (fun l' => { s with loc := some (cfg, l') })
+    | none => scriptedOnly.finishInit s
 
 structure M where
   sp : Space := { names := [], dims := [] }
@@ -184,12 +207,54 @@ def exec (m : M) (cmd : String) : P (M × List String) := do
     let dur ← pRat
     let r ← pRes
     let q := m.d.bst.queue ++ [Item.pos (decide (kind = "I")) p]
-    pure ({ m with d := { m.d with bst := { queue := q } }, steps := m.steps.push (r, dur) }, ["ok"])
+    pure ({ m with d := { m.d with bst := { m.d.bst with queue := q } }, steps := m.steps.push (r, dur) }, ["ok"])
   | "draise" =>
-    pure ({ m with d := { m.d with bst := { queue := m.d.bst.queue ++ [Item.raise] } } }, ["ok"])
+    pure ({ m with d := { m.d with bst := { m.d.bst with queue := m.d.bst.queue ++ [Item.raise] } } }, ["ok"])
   | "dobj" => do
     let dur ← pRat; let r ← pRes
     pure ({ m with byCall := m.byCall.push (r, dur) }, ["ok"])
+  -- ---------------- complete backends (GFO.Model.Local)
+  | "lnew" => do
+    let nInits ← pNat
+    let kindTok ← tok
+    let extra ← pRat
+    let nNb ← pNat
+    let rrp ← pRat
+    let initL ← pList (pN m.sp.dims.length pInt)
+    let kind : LocalKind ← match kindTok with
+      | "hc" => pure LocalKind.hillClimbing
+      | "stochastic" => pure LocalKind.stochastic
+      | "repulsing" => pure (LocalKind.repulsing extra)
+      | "restart" => pure (LocalKind.restart extra.num.toNat)
+      | "random" => pure LocalKind.randomSearch
+      | k => throw s!"kind? {k}"
+    let cfg : LocalCfg := { kind := kind, nNeighbours := nNb, randRestP := rrp, geo := m.sp.geo }
+    pure ({ m with d := { nInits := nInits, bst := { loc := some (cfg, { initL := initL }) } }, call := none, warm := [], steps := #[], byCall := #[] }, ["ok"])
+  | "lt" => do
+    let k ← tok
+    let nd := m.sp.dims.length
+    let e : Draw ← match k with
+      | "u" => do let x ← pRat; pure (Draw.unif x)
+      | "c" => do let p ← pN nd pInt; let e ← pRat; pure (Draw.climb p e)
+      | "d" => do let p ← pN nd pInt; let v ← pN nd pF; pure (Draw.dist p v)
+      | "r" => do let p ← pN nd pInt; pure (Draw.rnd p)
+      | "f" => do let p ← pN nd pInt; let b ← pBool; pure (Draw.feas p b)
+      | "a" => do let pa ← pF; let r ← pRat; pure (Draw.accept pa r)
+      | k => throw s!"draw? {k}"
+    match m.d.bst.loc with
+    | some (cfg, l) => pure ({ m with d := { m.d with bst := { m.d.bst with loc := some (cfg, { l with tape := l.tape ++ [e] }) } } }, [])
+    | none => throw "no local backend"
+  | "lstep" => do
+    let dur ← pRat; let r ← pRes
+    pure ({ m with steps := m.steps.push (r, dur) }, [])
+  | "lstate" =>
+    match m.d.bst.loc with
+    | some (_, l) =>
+      let t := l.tr
+      pure (m, [s!"tracker new={showOpt showPos t.posNew}:{showF t.scoreNew} cur={showOpt showPos t.posCurrent}:{showF t.scoreCurrent} " ++
+                s!"best={showOpt showPos t.posBest}:{showF t.scoreBest} valid={showList (fun e => showOpt showPos e.1 ++ ":" ++ showF e.2) (t.positionsValid.zip t.scoresValid)} " ++
+                s!"nthTrial={t.nthTrial} nthInit={t.nthInit} epsMod={showRat l.epsMod} tapeLeft={l.tape.length}"])
+    | none => pure (m, ["err:no-local-backend"])
   | "drun" => pure (runCall m)
   -- ---------------- kernels (GFO.Model.Kernels)
   | "conv2pos" => do
